@@ -21,6 +21,7 @@ EXPLANATION = (
     "CoreCheckResult(passed=True) and cannot raise; (R6) groups restricts the dict given to the check function and "
     "unknown groups raise. (R7) definite assignment: no function of the Check API / check backend modules reads a local that a branch-only path from its entry leaves unassigned (CFG may-analysis, optimistic about try bodies and loop bodies, correlated guards pruned, non-empty local accumulators accepted as witnesses) - an UnboundLocalError there would escape the check. " 
     " R4 also covers the runner: CoreCheckResult.passed in run_check (both backends) is never decided from, or under a condition on, the failure cases built for the report. " 
+    " R3 also covers polars: a null check output is decided before the verdict on every path (True under ignore_na, False otherwise), the failure cases are selected with the same decided output that gives the verdict, and pandas per-column preprocessing drops nulls of the checked column only (never row-wise from the whole table). " 
     "NOT decided: the metamorphic equalities over predicates and data."
 )
 LEVEL_RULE = "one obligation per constructor / backend function / option use site"
@@ -261,6 +262,27 @@ def r3_polars_null_outputs_decided(ctx):
             verdict.add(node.id)
     if not verdict:
         raise AnalysisError("postprocess_lazyframe_output: verdict aggregation (.all()) not found")
+    # the failing cells are read off the same decided output as the verdict: concatenating the *raw* check output next to the
+    # data lists (or hides) cells that the verdict has already decided the other way
+    agg = [c for c in calls_in(f.node) if callee_last(c) == "all"]
+    verdict_src = set()
+    for c in agg:
+        x = c
+        while isinstance(x, (ast.Call, ast.Attribute)):
+            x = x.func if isinstance(x, ast.Call) else x.value
+        p_ = getattr(c, "_parent", None)
+        while p_ is not None and not isinstance(p_, ast.stmt):
+            if isinstance(p_, ast.Call) and isinstance(p_.func, ast.Attribute) and isinstance(p_.func.value, ast.Name):
+                verdict_src.add(p_.func.value.id)
+            p_ = getattr(p_, "_parent", None)
+    for c in calls_in(f.node):
+        if callee_last(c) == "concat" and c.args and isinstance(c.args[0], (ast.List, ast.Tuple)) and len(c.args[0].elts) == 2:
+            second = c.args[0].elts[1]
+            same = isinstance(second, ast.Name) and second.id in verdict_src
+            ctx.ob("R3", f, "polars: failure cases are selected with the same decided output that gives the verdict", same or not verdict_src,
+                   f"`{txt(second)}` is what the verdict aggregates" if same else
+                   f"the failure cases are filtered on `{txt(second)}` while the verdict aggregates {sorted(verdict_src)}: with nulls in the output the reported "
+                   "cells and the verdict disagree (a row counted as failing is not listed, or the reverse)", f.loc(c))
     path = cfg.must_pass(cfg.entry.id, verdict, deciding)
     ok = path is None
     where = ""
